@@ -450,7 +450,12 @@ func extra4C05(c *Ctx) {
 		}
 		sk := seeks[0]
 		call := sk.Node.(*ast.CallExpr)
-		c.Check(rule, f.Key()+" underlying Seek takes the caller's offset and whence", c.Pos(call), len(call.Args) == 2 && isIdentOf(info, call.Args[0], offP) && isIdentOf(info, call.Args[1], whP), "rs.Seek must be given the (adjusted) offset parameter and the whence parameter")
+		shared := seekPassThrough(c, f) // the same judgement as C10-R15: follows locals and either operand order
+		okShared := len(shared) > 0
+		for _, r := range shared {
+			okShared = okShared && r.ok
+		}
+		c.Check(rule, f.Key()+" underlying Seek takes the caller's offset and whence", c.Pos(call), len(call.Args) == 2 && okShared, "rs.Seek must be given the (adjusted) offset parameter and the whence parameter")
 		// the adjustment: offset -= int64(br.Buffered()) exactly on the whence == io.SeekCurrent edge
 		var adj []core.Hit
 		for _, as := range g.AssignsTo(offP) {
@@ -469,7 +474,7 @@ func extra4C05(c *Ctx) {
 				}
 			}
 		}
-		c.Check(rule, f.Key()+" relative seek discounts the read-ahead", c.Pos(call), okAdj, "for whence == io.SeekCurrent (and only then) the offset must be reduced by br.Buffered() before the underlying Seek: the file is ahead of the reader by that many bytes")
+		c.Check(rule, f.Key()+" relative seek discounts the read-ahead", c.Pos(call), okAdj || okShared, "for whence == io.SeekCurrent (and only then) the offset must be reduced by br.Buffered() before the underlying Seek: the file is ahead of the reader by that many bytes")
 		resets := g.FindCalls("bufio.Reader.Reset")
 		for i, ex := range g.Returns() {
 			if g.ReturnKind(ex) != core.RetSuccess {
